@@ -171,6 +171,59 @@ def exhaustive_calls(depth):
     return out
 
 
+LEVEL_INT = {"DISABLE": 0, "WARNING": 1, "INFO": 2, "DETAIL": 3, "DEBUG": -1}
+
+
+def py_norm(v):
+    """What the documentation says a verbose value means: None -> "none"; an integer code in
+    -1..3 (booleans: True -> 3, False -> 0; names in any case) -> that code; anything else -> "invalid"."""
+    if v is None:
+        return "none"
+    if v[0] == "bool":
+        return 3 if v[1] else 0
+    if v[0] == "int":
+        return v[1] if v[1] in (-1, 0, 1, 2, 3) else "invalid"
+    return LEVEL_INT.get(v[1].upper(), "invalid")
+
+
+def hands_down(tree, z):
+    """every nested call is handed the verbosity z (in any spelling), none, or an invalid one
+    (which is rejected before anything happens)"""
+    for sub, _ in tree["b"]["items"]:
+        n = py_norm(sub["v"])
+        if n not in ("none", "invalid", z):
+            return False
+        if not hands_down(sub, z):
+            return False
+    return True
+
+
+SPELL = {-1: [["int", -1], ["str", "debug"], ["str", "DEBUG"]], 0: [["int", 0], ["bool", False], ["str", "Disable"]],
+         1: [["int", 1], ["str", "warning"]], 2: [["int", 2], ["str", "INFO"]],
+         3: [["int", 3], ["bool", True], ["str", "detail"]]}
+
+
+def uniform_call(rng, z, depth, top=True):
+    """a call tree in which the top-level verbosity z is handed down unchanged, or not at all"""
+    items = []
+    if depth > 0:
+        for _ in range(rng.choice([1, 1, 2, 3] if top else [0, 1, 1, 2])):
+            items.append([uniform_call(rng, z, depth - 1, False), rng.random() < 0.5])
+    if top:
+        v = rng.choice(SPELL[z])
+    else:
+        r = rng.random()
+        v = None if r < 0.45 else (rng.choice(SPELL[z]) if r < 0.93 else ["str", "bad"])
+    return {"v": v, "b": {"items": items, "end": rng.choice(["ret", "ret", "raise"])}}
+
+
+EXC_KINDS = ["Exception", "Exception", "Exception", "BaseException", "KeyboardInterrupt", "SystemExit", "GeneratorExit"]
+
+
+def g_probes(tr):
+    return "[" + "; ".join(f"({gstr(p[0])}, {gz(p[1])}, {gz(p[2])})" for p in tr) + "]"
+
+
 def eff(e):
     """effective observable state (Model.obs) of a full state row"""
     return [e[0], e[1], 0 if e[0] == "DISABLE" else e[2], e[4], e[5]]
@@ -209,10 +262,28 @@ def run(chk, model_ok):
     for _ in range(nblocks):
         allow_set = rng.random() < 0.4
         cases.append({"pre": prelude(rng), "b": rand_block(rng, 4 if thorough and rng.random() < 0.3 else 3, allow_set), "fam": "block"})
+    # (b2) uniform call trees: the verbosity of the outermost call handed down unchanged (any
+    #      spelling) or not at all, to depth 3 - what cfdm's own functions do
+    for _ in range(6000 if thorough else 900):
+        z = rng.choice([-1, 0, 1, 2, 3])
+        cases.append({"pre": [["set", "level", ["name", rng.choice(LEVELS)]]],
+                      "b": [["call", uniform_call(rng, z, rng.choice([1, 2, 2, 3]))]], "fam": "uniform"})
+    # the class of the exception that leaves a block or a call: the finally clauses must not care
+    for c in cases:
+        c["exc"] = rng.choice(EXC_KINDS)
     # corpus first
     corpus = [
         {"pre": [], "b": [["call", {"v": ["str", "bad"], "b": {"items": [], "end": "ret"}}],
                           ], "fam": "corpus-F20a"},
+        # a call left by an exception that is not an Exception (second-round seed C20-s4)
+        {"pre": [], "b": [["call", {"v": ["int", 3], "b": {"items": [], "end": "raise"}}]], "fam": "corpus-base-exception",
+         "exc": "KeyboardInterrupt"},
+        {"pre": [], "b": [["call", {"v": ["int", 2], "b": {"items": [[{"v": ["int", 2], "b": {"items": [[{"v": None, "b": {"items": [], "end": "raise"}}, False]], "end": "ret"}}, False]], "end": "ret"}}]],
+         "fam": "corpus-base-exception", "exc": "GeneratorExit"},
+        # the override must survive the return of a nested call (second-round seed C20-s5)
+        {"pre": [], "b": [["call", {"v": ["int", 3], "b": {"items": [[{"v": None, "b": {"items": [], "end": "ret"}}, False],
+                                                                   [{"v": ["int", 3], "b": {"items": [], "end": "ret"}}, False]], "end": "ret"}}]],
+         "fam": "corpus-override-persists"},
         {"pre": [], "b": [["call", {"v": None, "b": {"items": [[{"v": ["int", 3], "b": {"items": [], "end": "ret"}}, False]], "end": "ret"}}]], "fam": "corpus-F20b"},
         {"pre": [["set", "level", ["name", "DISABLE"]]], "b": [["call", {"v": ["int", 0], "b": {"items": [], "end": "ret"}}]], "fam": "corpus-F20c"},
     ]
@@ -244,6 +315,30 @@ def run(chk, model_ok):
                          f"state not restored: before {r['e0']} after {r['e1']}",
                          {"input": c, "before": r["e0"], "after": r["e1"]})
 
+    # what is in force DURING a call (C20_override_persists): for a single decorated call with a
+    # valid explicit verbosity that is handed down unchanged or not at all, every probe taken
+    # inside it - at the start of each body, after each nested call - shows the same logging state
+    nprobe = 0
+    for c, r in done:
+        if len(c["b"]) == 1 and c["b"][0][0] == "call":
+            t = c["b"][0][1]
+            z = py_norm(t["v"])
+            if z in ("none", "invalid") or not hands_down(t, z) or not r.get("tr"):
+                continue
+            nprobe += 1
+            first = r["tr"][0]
+            exp_root = {-1: 10, 1: 30, 2: 20, 3: 15}.get(z)
+            ok = all(p == first for p in r["tr"])
+            if ok and z != 0 and (first[1] != 0 or first[2] != exp_root):
+                ok = False
+            if ok and z == 0 and first[1] != 50:
+                ok = False
+            if not ok:
+                chk.fail("property", "override-not-in-force-throughout-the-call",
+                         f"verbose={t['v']} (level code {z}) from {r['e0'][0]}: the logging state seen inside the call is "
+                         f"not the one the verbosity asks for at every point: {r['tr'][:8]}",
+                         {"input": c, "observed": r})
+
     # correspondence with the model
     ncorr = 0
     if model_ok:
@@ -251,6 +346,16 @@ def run(chk, model_ok):
                 for c, r in done]
         bad = lib.coq_bad_indices("C20", REQ, "check_case", lits, chunk=400)
         ncorr = len(lits)
+        # the probes taken inside single decorated calls against Trace.trace_call
+        tdone = [(c, r) for c, r in done if len(c["b"]) == 1 and c["b"][0][0] == "call"]
+        tlits = [f"({g_block(c['pre'])}, {g_call(c['b'][0][1])}, {g_full(r['e0'])}, {g_probes(r['tr'])})" for c, r in tdone]
+        tbad = lib.coq_bad_indices("C20", REQ, "check_trace", tlits, chunk=400)
+        ncorr += len(tlits)
+        for i in tbad[:50]:
+            c, r = tdone[i]
+            chk.fail("correspondence", "model-vs-impl:trace",
+                     "model and implementation disagree on the logging state seen inside a decorated call",
+                     {"correspondence": "C20.Run.check_trace", "input": c, "observed": r})
         for i in bad[:50]:
             c, r = done[i]
             # a disagreement on a case the property oracle already rejected is explained by it
@@ -276,23 +381,32 @@ def run(chk, model_ok):
                      f"{r['fn']}(verbose={r['v']}) at level {r['level']}: before {r['before']} after {r['after']}",
                      {"input": r})
 
-    # (d) tolerances passed to equals are local
+    # (d) tolerances passed to an equality test are local: pairs differing by 0.5 in one element,
+    #     reached through different nestings of equals (field data, coordinate bounds, domain
+    #     ancillary, Constructs, compressed arrays with and without ignore_compression)
     rc, out, err = lib.run_worker("drive/c20.py", {"mode": "equals"})
-    if rc != 0 or len(out) != 4:
+    out = [r for r in out if "skip" not in r]
+    if rc != 0 or len(out) < 40:
         chk.fail("correspondence", "worker-crash", f"equals worker failed: {err[-800:]}",
                  {"correspondence": "drive/c20.py equals"})
     for r in out:
+        tag = f"{r['pair']} {r['kw']}"
+        if "exc" in r:
+            chk.fail("property", "equals-raises", f"{tag}: equals raised {r['exc']}", {"input": r})
+            continue
         exp_local = r["loc"] == 1000
         exp_global = r["glob"] == 1000
         if r["before"] != r["mid"] or r["mid"] != r["after"]:
-            chk.fail("property", "equals-changes-globals", f"equals changed the global settings: {r}", {"input": r})
-        if r["r_local"] != exp_local or r["r_data"] != exp_local:
+            chk.fail("property", "equals-changes-globals", f"{tag}: equals changed the global settings: {r}", {"input": r})
+        if r["r_local"] != exp_local or r["r_local_rev"] != exp_local:
             chk.fail("property", "equals-reads-global-tolerance",
-                     f"equals(atol={r['loc']}, rtol={r['loc']}) with global {r['glob']} gave {r['r_local']}/{r['r_data']}, expected {exp_local}",
+                     f"{tag}: equals(atol={r['loc']}, rtol={r['loc']}) with global {r['glob']} gave {r['r_local']}/{r['r_local_rev']}, expected {exp_local}",
                      {"input": r})
         if r["r_global"] != exp_global:
             chk.fail("property", "equals-ignores-global-tolerance",
-                     f"equals() with global tolerance {r['glob']} gave {r['r_global']}", {"input": r})
+                     f"{tag}: equals() with global tolerance {r['glob']} gave {r['r_global']}", {"input": r})
+        if not r["r_self"]:
+            chk.fail("property", "equals-own-copy", f"{tag}: not equal to its own copy with zero tolerances", {"input": r})
 
     distinct = {lib.canon([c["pre"], c["b"]]) for c, r in done if nontrivial(c)}
     fam = {}
@@ -301,7 +415,7 @@ def run(chk, model_ok):
     chk.coverage.update({
         "evaluations": len(done) + nreflect + len(out),
         "distinct_nontrivial": len(distinct),
-        "rule": "call trees: exhaustive over 6 verbose classes x {return, raise} x {caught, uncaught} to depth "
+        "rule": "uniform call trees (the outermost verbosity handed down in any spelling, or not at all) to depth 3 with probes inside every body; every raise uses one of five exception classes (two of them not Exception subclasses); call trees: exhaustive over 6 verbose classes x {return, raise} x {caught, uncaught} to depth "
                 f"{depth} (+ sampled depth 2 in quick) from each of the 5 levels; blocks: seeded random nesting of with-blocks, "
                 "configuration blocks, decorated calls, setters and raises to depth 3; a case is non-trivial when its "
                 "block contains at least one verbose override, context manager or setter; distinct = distinct canonical JSON",
@@ -312,6 +426,11 @@ def run(chk, model_ok):
         "raised_cases": sum(1 for c, r in done if r["exc"]),
         "bracketed_cases": sum(1 for c, r in done if bracketed(c["b"])),
         "must_restore_cases": sum(1 for c, r in done if must_restore(c["b"])),
+        "calls_probed_for_override_in_force": nprobe,
+        "probes_taken": sum(len(r.get("tr") or []) for c, r in done),
+        "exception_classes": {k: sum(1 for c, r in done if c.get("exc") == k) for k in sorted(set(EXC_KINDS))},
+        "nesting_counters_observable": (done[0][1].get("counters") if done else None),
+        "equals_pairs": len(out),
         "decorated_functions_found": fnames,
         "reflection_calls": nreflect,
         "exhaustive": False,
